@@ -4,6 +4,7 @@ import (
 	"fmt"
 	"math"
 	"testing"
+	"time"
 
 	age "github.com/craterdog/go-collection-framework/v4/agent"
 	col "github.com/craterdog/go-collection-framework/v4/collection"
@@ -299,7 +300,7 @@ func sameInts(a, b []int) bool {
 }
 
 var (
-	etInt    = elemType[int]{[]int{0, 1, 2, 3, -7}, func(a, b int) bool { return a == b }, func(a, b int) bool { return a == b }, func(a, b int) bool { return a < b }}
+	etInt = elemType[int]{[]int{0, 1, 2, 3, -7}, func(a, b int) bool { return a == b }, func(a, b int) bool { return a == b }, func(a, b int) bool { return a < b }}
 	// both ends of the int64 range next to small values: pairs that are 2^63 or more apart
 	etIntFar = elemType[int]{[]int{math.MinInt64, -1, 0, 1, math.MaxInt64}, func(a, b int) bool { return a == b }, func(a, b int) bool { return a == b }, func(a, b int) bool { return a < b }}
 	etString = elemType[string]{[]string{"", "a", "b", "ab", "c"}, func(a, b string) bool { return a == b }, func(a, b string) bool { return a == b }, func(a, b string) bool { return a < b }}
@@ -947,6 +948,8 @@ func TestC01(t *testing.T) {
 	defer r.End()
 	core.DFS(r, core.Check[largeCase]{Name: "large-sizes", Gen: genLarge([]string{"List", "Array"}), Exec: execLarge("C01"), NoJournal: true}, 0)
 	core.Rapid(r, core.Check[seqCase]{Name: "history", Gen: genSeqCase(false, 40), Exec: execSeqCase, HangLimit: 0}, r.N(4000, 40000))
+	core.DFS(r, core.Check[reentrantCase]{Name: "reentrant-elements", Gen: genReentrant([]string{"List", "Array"}), Exec: execReentrant("C01"), NoJournal: true}, 0)
+	core.DFS(r, core.Check[longLivedCase]{Name: "long-lived-instance", Gen: genLongLived([]string{"List"}, r.N(150000, 1200000)), Exec: execLongLived("C01"), NoJournal: true, HangLimit: 300 * time.Second}, 0)
 	// every history of up to 2 (quick) / 3 (thorough) operations over a 2-value alphabet, sizes 0..3
 	core.DFS(r, core.Check[seqCase]{Name: "small-histories", Gen: genSeqCase(true, r.N(1, 2)), Exec: execSeqCase, NoJournal: true}, r.N(400000, 0))
 }
